@@ -842,6 +842,12 @@ class Interp:
             if name == "name":
                 return self.enum_name(obj)
             return self.class_attr(obj.cls, name, obj)
+        if isinstance(obj, Opaque) and obj.kind == "str" and name in ("upper", "lower", "strip"):
+            f = z3.Function(f"str_{name}", OpaqueSort, OpaqueSort)
+            r = Opaque(f(obj.t), "str")
+            from .calls import Model
+
+            return Model(f"str.{name}", lambda I, a, k: r)
         if isinstance(obj, SBytes):
             return BoundMethod(("bytes", name), obj, f"bytes.{name}")
         if isinstance(obj, SInt):
@@ -1050,6 +1056,9 @@ class Interp:
                 if c is True:
                     return v
             return self.merge_cases([(_z(c), v) for c, v in cases])
+        if isinstance(obj, Opaque) and obj.kind == "str" and isinstance(idx, slice) and not _has_sym((idx.start, idx.stop)):
+            f = z3.Function(f"str_slice_{idx.start}_{idx.stop}", OpaqueSort, OpaqueSort)
+            return Opaque(f(obj.t), "str")
         if isinstance(obj, Sym):
             raise Unsupported(f"subscript of {type(obj).__name__}")
         if isinstance(idx, slice) and _has_sym((idx.start, idx.stop)):
